@@ -1013,8 +1013,9 @@ func (e *AnimEncoder) increasePreviousDuration(durMS int) error {
 	}
 
 	// Overflow: cap the previous frame at maxDuration and emit a 1x1
-	// transparent filler frame for the remaining duration.
-	e.muxer.SetFrameDuration(e.prevMuxIndex, maxDuration)
+	// transparent filler frame for the remaining duration. The previous
+	// frame is only changed once the filler has been added, so that a call
+	// that fails leaves the animation as it was.
 	remainder := newDur - maxDuration
 
 	// Encode a 1x1 transparent pixel as the filler frame.
@@ -1033,6 +1034,7 @@ func (e *AnimEncoder) increasePreviousDuration(durMS int) error {
 	}); err != nil {
 		return err
 	}
+	e.muxer.SetFrameDuration(e.prevMuxIndex, maxDuration)
 
 	e.prevMuxIndex = e.muxer.NumFrames() - 1
 	e.frameCount++
